@@ -304,7 +304,11 @@ def _q19f(depth, use_f, unrelated):
         w.dirs.add(start)
     vfs.install(w)
     real = (os.getcwd, cli_mod.configure_logging, cli_mod.guess_backend)
+    old_pwd = os.environ.get("PWD")
     try:
+        # (the environment may carry a stale PWD - a process started with cwd=... by a driver, cron, make -C: only the real cwd counts)
+        w.add("/vfs/stale/workflow.py", 1, "# another project")
+        os.environ["PWD"] = "/vfs/stale"
         os.getcwd = lambda: start
         cli_mod.configure_logging = lambda level_name, handler=None: None
         cli_mod.guess_backend = lambda: (0, "local")
@@ -328,6 +332,10 @@ def _q19f(depth, use_f, unrelated):
         return ""
     finally:
         os.getcwd, cli_mod.configure_logging, cli_mod.guess_backend = real
+        if old_pwd is None:
+            os.environ.pop("PWD", None)
+        else:
+            os.environ["PWD"] = old_pwd
         vfs.uninstall()
 
 
